@@ -84,6 +84,7 @@ type Txn struct {
 	index   bitmap.Bitmap    // The filtering index
 	dirty   bitmap.Bitmap    // The dirty chunks
 	updates []*commit.Buffer // The update buffers
+	inserts []uint32         // The offsets reserved by the inserts of this transaction
 	columns []columnCache    // The column mapping
 	logger  commit.Logger    // The optional commit logger
 	reader  *commit.Reader   // The commit reader to re-use
@@ -104,6 +105,7 @@ func (txn *Txn) reset() {
 	txn.reader.Rewind()
 	txn.columns = txn.columns[:0]
 	txn.updates = txn.updates[:0]
+	txn.inserts = txn.inserts[:0]
 }
 
 // bufferFor loads or creates a buffer for a given column.
@@ -371,10 +373,17 @@ func (txn *Txn) insert(fn func(Row) error, expireAt int64) (uint32, error) {
 
 	// At a new index, add the insertion marker
 	idx := txn.owner.next()
+	txn.inserts = append(txn.inserts, idx)
 	txn.bufferFor(rowColumn).PutOperation(commit.Insert, idx)
 
 	// If there was an error during insertion, free the index so it can be re-used
 	if err := txn.QueryAt(idx, fn); err != nil {
+		for i := len(txn.inserts) - 1; i >= 0; i-- { // freed right away: no longer reserved by this transaction
+			if txn.inserts[i] == idx {
+				txn.inserts = append(txn.inserts[:i], txn.inserts[i+1:]...)
+				break
+			}
+		}
 		txn.owner.free(idx)
 		return idx, err
 	}
@@ -504,6 +513,9 @@ func (txn *Txn) DeleteKey(key string) error {
 // a transaction in order to perform partial rollbacks.
 func (txn *Txn) rollback() {
 	txn.owner.lock.Lock()
+	for _, idx := range txn.inserts {
+		txn.owner.fill.Remove(idx) // give back the offsets its inserts have reserved
+	}
 	atomic.StoreUint64(&txn.owner.count, uint64(txn.owner.fill.Count()))
 	txn.owner.lock.Unlock()
 
